@@ -68,6 +68,12 @@ type LibPlain struct {
 	Skip   int    `config:",ignore"`
 	hidden int
 	tag    string
+	libMeta
+}
+
+// libMeta is embedded unexported: its promoted field Rev is not a setting.
+type libMeta struct {
+	Rev int `config:"rev"`
 }
 
 // LibPort: a primitive with InitDefaults.
@@ -190,6 +196,9 @@ func newLibPlain(r *rand.Rand) LibPlain {
 	}
 	if maybe(r) {
 		p.tag = word(r)
+	}
+	if maybe(r) {
+		p.Rev = 1 + r.Intn(99)
 	}
 	return p
 }
